@@ -199,13 +199,13 @@ pub fn baseline(world: &mut World, scratch: &Scratch, h: &CrashHistory) -> Resul
     world.reset();
     let dir = scratch.sub("ref");
     let index = idx::open(world, &dir, &cfg).map_err(|e| format!("reference open: {e:#}"))?;
-    index.update().map_err(|e| format!("reference update: {e:#}"))?;
+    util::watched(|| index.update()).map_err(|e| format!("reference update: {e:#}"))?;
     let c = Dump::take(&index).map_err(|e| format!("{e:#}"))?.content();
     committed.entry((1, Some(full[0].block_hash()))).or_insert(c);
     for (i, b) in full.iter().enumerate().skip(1) {
       world.salt = b.header.nonce;
       world.push_block(b.txdata.clone());
-      index.update().map_err(|e| format!("reference update: {e:#}"))?;
+      util::watched(|| index.update()).map_err(|e| format!("reference update: {e:#}"))?;
       let key = ((i + 1) as u32, Some(b.block_hash()));
       if !committed.contains_key(&key) {
         committed.insert(key, Dump::take(&index).map_err(|e| format!("{e:#}"))?.content());
@@ -229,7 +229,7 @@ pub fn baseline(world: &mut World, scratch: &Scratch, h: &CrashHistory) -> Resul
     set_world(world, chain, salts);
     backend.set_step(s);
     let before = Dump::take(&index).map(|d| d.statistic(idx::STAT_COMMITS)).unwrap_or(0);
-    index.update().map_err(|e| format!("baseline update at step {s}: {e:#}"))?;
+    util::watched(|| index.update()).map_err(|e| format!("baseline update at step {s}: {e:#}"))?;
     let after = Dump::take(&index).map(|d| d.statistic(idx::STAT_COMMITS)).unwrap_or(0);
     commits_observed += (after - before) as usize;
   }
@@ -303,7 +303,7 @@ pub fn recover(world: &mut World, scratch: &Scratch, h: &CrashHistory, base: &Ba
   // resume: the node as it was, then the remaining events
   for s in cp.step..h.chains.len() {
     set_world(world, &h.chains[s], &h.salts[s]);
-    match util::catch(|| index.update()) {
+    match util::catch(|| util::watched(|| index.update())) {
       Ok(Ok(())) => {}
       Ok(Err(e)) => return Err((format!("resume-fails/{kind}"), format!("crash point {} (step {}): update() after recovery fails at step {s}: {e:#}", cp.k, cp.step))),
       Err(p) => return Err((format!("resume-panics/{kind}"), format!("crash point {} (step {}): update() after recovery panics at step {s}: {p}", cp.k, cp.step))),
